@@ -51,6 +51,7 @@ struct Gen {
       r.set("word", word).set("sgned", (int64_t)g.below(2)).set("be", (int64_t)g.below(2));
       double u = g.unit(); int nch = sr.ps.links[0]->r.ch; int frame = std::max(1, word) * nch;
       int len = u < 0.15 ? (int)g.below((uint64_t)frame) : u < 0.25 ? frame : u < 0.33 ? frame + 1 : u < 0.6 ? (int)g.range(1, 600) : (int)g.range(600, 8192);
+      if (g.chance(0.05)) { static const int64_t nl[] = {-1, -2, -4, -64, -4096, -2147483647LL - 1}; int64_t v = g.chance(0.4) ? -(int64_t)frame * (int64_t)g.range(1, 40) : nl[g.below(6)]; len = (int)v; r.set("neglen", 1); }   // "a buffer too small for one frame": a negative length is that too
       r.set("len", len).set("rep", (int64_t)g.range(1, maxrep));
     } else {
       Rec &r = op("read_float"); double u = g.unit();
@@ -88,7 +89,7 @@ struct Gen {
       if ((prop == "C03" || prop == "C13") && !used.empty() && g.chance(0.05)) serial = used[g.below(used.size())];   // damage: a serial number reused by a later link
       used.push_back(serial);
       lr.set("pol", pol).set("k", k).set("serial", serial);
-      if (g.chance(0.06) && (prop == "C10" || prop == "C03" || prop == "C13" || prop == "C09")) lr.set("foreign", (int64_t)(g.chance(0.5) ? 1 : g.range(2, 3))).set("fserial", serial ^ 0x5a5a5);
+      if (g.chance(0.06) && (prop == "C10" || prop == "C03" || prop == "C13" || prop == "C09")) lr.set("foreign", (int64_t)(g.chance(0.5) ? 1 : g.range(2, 3))).set("fserial", serial ^ 0x5a5a5).set("fbosfirst", (int64_t)g.chance(0.4));
     }
     build_stream(p, sr);
     if (sr.ambiguous_cut) {   // a cut link must keep at least two audio pages, otherwise its start offset is undefined (see StreamRef::ambiguous_cut)
@@ -113,6 +114,7 @@ struct Gen {
     if (!seekable) { f.set("noseekfn", (int64_t)g.below(2)); if (g.chance(0.3)) f.set("ibytes", (int64_t)g.range(1, 5000)); }
     else if (g.chance(0.1)) f.set("ibytes", (int64_t)(g.chance(0.5) ? 4 : g.range(1, 300)));   // a seekable source whose first bytes the application has already read
     if (g.chance(0.3)) f.set("clear2", 1);
+    if (g.chance(0.2)) f.set("errnoise", 1);   // a read callback that delivers data may leave any errno behind (glibc's fread does: ENOTTY from its first buffer set-up, EINTR after an internal retry)
     if (g.chance(0.05)) f.set("noclosefn", 1);
     if (f.i("open") >= 2) f.set("stdiobuf", (int64_t)g.range(16, 4096));
   }
@@ -334,11 +336,13 @@ std::vector<Plan> vfsim_simplify(const Plan &p) {
       if (r.i("poison") != 0) with(i, [](Rec &x) { x.set("poison", 0); });
       if (r.i("clear2")) with(i, [](Rec &x) { x.set("clear2", 0); });
       if (r.i("noclosefn")) with(i, [](Rec &x) { x.set("noclosefn", 0); });
+      if (r.i("errnoise")) with(i, [](Rec &x) { x.set("errnoise", 0); });
     } else if (r.type == "knob") {
       if (r.i("chunk") != 65536) with(i, [](Rec &x) { x.set("chunk", 65536); });
       if (r.i("read") != 2048) with(i, [](Rec &x) { x.set("read", 2048); });
     } else if (r.type == "link") {
       if (r.i("foreign")) with(i, [](Rec &x) { x.set("foreign", 0); });
+      if (r.i("fbosfirst")) with(i, [](Rec &x) { x.set("fbosfirst", 0); });
       if (r.i("cut") > 1) with(i, [](Rec &x) { x.set("cut", 1); });
       if (r.i("pol")) with(i, [](Rec &x) { x.set("pol", 0); });
     } else if (r.type == "op") {
